@@ -175,6 +175,18 @@ fn run_history(line: &str) -> String {
                         }
                     }
                 }
+                "pg" => {
+                    // a REAL `Entered` guard (Span::enter) dropped by a panic that unwinds through it and is caught: the same
+                    // enter / exit / release as `en` followed by `ex`, the exit happening while the thread is panicking
+                    let j: usize = a[2].parse().unwrap();
+                    let c = hs.lock().unwrap().get(&j).and_then(|v| v.first().cloned());
+                    if let Some(c) = c {
+                        let _ = std::panic::catch_unwind(std::panic::AssertUnwindSafe(move || {
+                            let _g = c.entered();
+                            std::panic::resume_unwind(Box::new("scripted"));
+                        }));
+                    }
+                }
                 "ren" | "rex" => {
                     let j: usize = a[2].parse().unwrap();
                     let sp = { let s = shc.lock().unwrap(); s.idmap.iter().find(|(_, v)| **v == j).map(|(k, _)| span::Id::from_u64(*k)) };
@@ -222,7 +234,9 @@ fn run_history(line: &str) -> String {
             items.extend(s.log_a.iter().cloned());
         }
         items.extend(s.out.iter().cloned());
-        outs.push(if items.is_empty() { "-".into() } else { items.join(",") });
+        let o = if items.is_empty() { "-".to_string() } else { items.join(",") };
+        // (`pg` stands for two operations of the model: the enter, which reports nothing, and the exit)
+        outs.push(if t[0] == "pg" { format!("- {}", o) } else { o });
     }
     // teardown: drop every handle (ignore what happens here)
     handles.lock().unwrap().clear();
